@@ -689,11 +689,21 @@ def rs11(prog, rr):
     from rules.r97_round2b import _guards
     f = prog.method("ExpandSolveOrderVisitor", "expand")
     acc = [n for n in walk_local(f.node) if isinstance(n, ast.Call) and call_name(n) == "accept"]
-    rr.require(len(acc) >= 2, "accept calls not found in ExpandSolveOrderVisitor.expand")
+
+    def sides(c):
+        """1 for `x.accept`, 2 for `(a if self.lhs else b).accept` (directly or through a local bound once to that choice)"""
+        rv = c.func.value
+        if isinstance(rv, ast.Name):
+            ds = [a.value for a in walk_local(f.node) if isinstance(a, ast.Assign) and len(a.targets) == 1 and norm(a.targets[0]) == rv.id]
+            rv = ds[0] if len(ds) == 1 else rv
+        return 2 if isinstance(rv, ast.IfExp) and "self.lhs" in norm(rv.test) else 1
+    rr.require(sum(sides(c) for c in acc) >= 2, "accept calls not found in ExpandSolveOrderVisitor.expand")
     for c in acc:
         gs = [t for t, pos in _guards(f.node, c)]
         extra = [t for t in gs if t.replace(" ", "") not in ("self.lhs", "notself.lhs")]
         rr.inst("expand: %s under %s" % (norm(c), gs))
+        if sides(c) == 2:
+            rr.inst("expand: the same call walks the other side when self.lhs is false")
         if extra:
             rr.finding(f, c, "ExpandSolveOrderVisitor.expand", "RS11: the walk of one side of a solve_order directive is skipped under %s: the "
                        "dependency is then never recorded and a chain a<b<c loses its transitivity when the middle field is not random in "
